@@ -59,12 +59,15 @@ type member struct {
 
 type group struct {
 	obj, rule string
+	id        int // the object (one visit of one struct value) the group belongs to: two objects whose paths print the same are still two
 	members   []member
 }
 
 type walker struct {
 	o      Opts
 	res    Result
+	objSeq int // objects visited so far
+	curObj int // the object being walked
 	groups []*group
 }
 
@@ -254,6 +257,10 @@ func (w *walker) validate(structName string, value reflect.Value, gather bool, o
 	if outermost {
 		structName = ty.Name()
 	}
+	w.objSeq++
+	saved := w.curObj
+	w.curObj = w.objSeq
+	defer func() { w.curObj = saved }()
 	for i := 0; i < ty.NumField(); i++ {
 		sf := ty.Field(i)
 		if sf.Type == timeType || !sf.IsExported() {
@@ -373,12 +380,12 @@ func (w *walker) exist(isExistRule bool, obj, field, msg string, tv reflect.Valu
 
 func (w *walker) addMember(obj, rule, field string, v reflect.Value) {
 	for _, g := range w.groups {
-		if g.obj == obj && g.rule == rule {
+		if g.id == w.curObj && g.rule == rule {
 			g.members = append(g.members, member{obj, field, v})
 			return
 		}
 	}
-	w.groups = append(w.groups, &group{obj: obj, rule: rule, members: []member{{obj, field, v}}})
+	w.groups = append(w.groups, &group{obj: obj, rule: rule, id: w.curObj, members: []member{{obj, field, v}}})
 }
 
 const eitherErr = "valid \"either\" is not ok, eg: type Test struct {\n    OrderNo string `valid:\"either=1\"`\n    TradeNo sting `valid:\"either=1\"`\n}, errMsg: \"OrderNo\" either \"TradeNo\" they shouldn't all be empty"
